@@ -415,6 +415,17 @@ func (vc *VC) havocAssigns(st *State, env *Env, c *Contract, pre *Heap) {
 	penv := *env
 	penv.heap = pre
 	penv.old = pre
+	var facts []Term
+	penv.facts = &facts
+	defer func() {
+		seen := map[Term]bool{}
+		for _, f := range facts {
+			if !seen[f] {
+				seen[f] = true
+				st.assume = append(st.assume, f)
+			}
+		}
+	}()
 	type upd struct {
 		sort  Sort
 		idxs  []Term
@@ -516,6 +527,8 @@ func (vc *VC) frameCheck(st *State, env *Env, c *Contract, site string) {
 	penv := *env
 	penv.heap = newHeap()
 	penv.old = penv.heap
+	var facts []Term
+	penv.facts = &facts
 	allowed := map[string][]Term{}
 	whole := map[string]bool{}
 	for _, t := range c.Assigns {
@@ -526,6 +539,9 @@ func (vc *VC) frameCheck(st *State, env *Env, c *Contract, site string) {
 				allowed[lv.Arr] = append(allowed[lv.Arr], lv.Idx)
 			}
 		}
+	}
+	for _, f := range facts {
+		st.assume = append(st.assume, f)
 	}
 	var names []string
 	for n := range st.heap.cur {
